@@ -1,0 +1,13 @@
+//go:build verif
+
+package core
+
+// VerifSetPersistVelocity sets the estimated number of keys written per
+// persist cycle, the value storeBlock compares the size of the write cache
+// with before it merges a block (it waits for the next persist if the cache
+// holds more than four times that many keys). It exists only under the
+// `verif` build tag and lets external verification harnesses make AddBlock
+// wait at that point, so that a flush can be placed inside block processing.
+func (bc *Blockchain) VerifSetPersistVelocity(v uint32) {
+	bc.keysPerPersist.Store(v)
+}
